@@ -17,20 +17,20 @@ def Table.hasItem (t : Table) (s p d : Nat) : Prop :=
 def Table.trans (t : Table) (g : Grammar) (s X s' : Nat) : Prop :=
   if X < g.nterms then Action.shift s' ∈ t.cell s X else t.goto g s X = some s'
 
-/-- The structural certificate, as a proposition.  `start` is the start state, `aug` the augmented
-    production whose completed item accepts. -/
-structure Structural (g : Grammar) (t : Table) (start aug sym : Nat) : Prop where
+/-- The structural certificate, as a proposition, for all automata of the table at once. -/
+structure Structural (g : Grammar) (t : Table) (autos : List Auto) : Prop where
   item_prod : ∀ s p d, t.hasItem s p d → ∃ pr, g.prods[p]? = some pr ∧ d ≤ pr.rhs.length
-  start_items : ∀ p d, t.hasItem start p d → d = 0
-  no_into_start : ∀ s X, ¬ t.trans g s X start
+  start_items : ∀ a ∈ autos, ∀ p d, t.hasItem a.start p d → d = 0
+  no_into_start : ∀ a ∈ autos, ∀ s X, ¬ t.trans g s X a.start
   target_items : ∀ s X s' p d, t.trans g s X s' → t.hasItem s' p (d+1) →
       (∃ pr, g.prods[p]? = some pr ∧ pr.rhs[d]? = some X) ∧ t.hasItem s p d
   reduce_item : ∀ s a p len, Action.reduce p len ∈ t.cell s a →
       t.hasItem s p len ∧ ∃ pr, g.prods[p]? = some pr ∧ pr.rhs.length = len
-  accept_item : ∀ s a, Action.accept ∈ t.cell s a →
-      ∃ pr, g.prods[aug]? = some pr ∧ pr.rhs = [sym] ∧ t.hasItem s aug 1
-  aug_start_only : ∀ s, t.hasItem s aug 0 → s = start
+  accept_item : ∀ s x, Action.accept ∈ t.cell s x →
+      ∃ a ∈ autos, ∃ pr, g.prods[a.aug]? = some pr ∧ pr.rhs = [a.sym] ∧ t.hasItem s a.aug 1
+  aug_start_only : ∀ a ∈ autos, ∀ s, t.hasItem s a.aug 0 → s = a.start
   shift_term : ∀ s a s', Action.shift s' ∈ t.cell s a → a < g.nterms
+  distinct : ∀ a ∈ autos, ∀ b ∈ autos, a.start = b.start → a = b
 
 /-- List version of `TreeList.Valid`. -/
 def ValidList (g : Grammar) : List Tree → List Nat → Prop
@@ -81,7 +81,8 @@ theorem pathInv_drop (g : Grammar) (t : Table) (start : Nat) (st : List (Nat × 
       intro h; simpa using ih b h.2
 
 /-- Path lemma: an item with dot `d` in the top state means the top `d` entries spell `rhs[0..d)`. -/
-theorem path_lemma (g : Grammar) (t : Table) (start aug sym : Nat) (hs : Structural g t start aug sym) :
+theorem path_lemma (g : Grammar) (t : Table) (autos : List Auto) (hs : Structural g t autos)
+    (au : Auto) (hin : au ∈ autos) (start : Nat) (hstart : start = au.start) :
     ∀ (d : Nat) (st : List (Nat × Tree)) (p : Nat), PathInv g t start st →
       t.hasItem (topOf start st) p d →
       d ≤ st.length ∧ t.hasItem (topOf start (st.drop d)) p 0 ∧
@@ -97,7 +98,7 @@ theorem path_lemma (g : Grammar) (t : Table) (start aug sym : Nat) (hs : Structu
     intro st p hp hi
     cases st with
     | nil =>
-      have := hs.start_items p (d+1) (by simpa [topOf] using hi)
+      have := hs.start_items au hin p (d+1) (by rw [← hstart]; simpa [topOf] using hi)
       omega
     | cons e below =>
       obtain ⟨s, tr⟩ := e
@@ -149,7 +150,8 @@ theorem cinv_init (g : Grammar) (t : Table) (start : Nat) : CInv g t start ⟨[]
   ⟨trivial, rfl⟩
 
 /-- every non-final step preserves the invariant, whatever the lookahead -/
-theorem cstep_preserves (g : Grammar) (t : Table) (start aug sym : Nat) (hs : Structural g t start aug sym)
+theorem cstep_preserves (g : Grammar) (t : Table) (autos : List Auto) (hs : Structural g t autos)
+    (au : Auto) (hin : au ∈ autos) (start : Nat) (hstart : start = au.start)
     (leafOf : Nat → Tree) (nodeOf : Nat → List Tree → Tree) (hd : Decorators leafOf nodeOf)
     (c c' : CCfg) (a : Nat) (hinv : CInv g t start c)
     (hstep : cstepWith g t start leafOf nodeOf c a = .shift c' ∨
@@ -193,7 +195,7 @@ theorem cstep_preserves (g : Grammar) (t : Table) (start aug sym : Nat) (hs : St
             obtain ⟨hitem, pr', hpr', hrl⟩ := hs.reduce_item _ _ _ _ hmem
             have : pr' = pr := by rw [hpr] at hpr'; exact (Option.some.inj hpr').symm
             subst this
-            obtain ⟨_, h0, pr'', hpr'', hvl, _⟩ := path_lemma g t start aug sym hs len c.stack p hinv.path hitem
+            obtain ⟨_, h0, pr'', hpr'', hvl, _⟩ := path_lemma g t autos hs au hin start hstart len c.stack p hinv.path hitem
             have : pr'' = pr' := by rw [hpr] at hpr''; exact (Option.some.inj hpr'').symm
             subst this
             have hfull : pr''.rhs.take len = pr''.rhs := by rw [← hrl]; simp
@@ -216,12 +218,14 @@ theorem cstep_preserves (g : Grammar) (t : Table) (start aug sym : Nat) (hs : St
     · -- accept
       split at hstep <;> simp at hstep
 
-/-- an accepted tree is a derivation of exactly the shifted tokens from the start symbol -/
-theorem cstep_accept_sound (g : Grammar) (t : Table) (start aug sym : Nat) (hs : Structural g t start aug sym)
+/-- an accepted tree is a derivation of exactly the shifted tokens from the start symbol of the
+    automaton the run was started in -/
+theorem cstep_accept_sound (g : Grammar) (t : Table) (autos : List Auto) (hs : Structural g t autos)
+    (au : Auto) (hin : au ∈ autos) (start : Nat) (hstart : start = au.start)
     (leafOf : Nat → Tree) (nodeOf : Nat → List Tree → Tree)
     (c : CCfg) (a : Nat) (tr : Tree) (hinv : CInv g t start c)
     (hstep : cstepWith g t start leafOf nodeOf c a = .accept tr) :
-    tr.Valid g sym ∧ tr.yield = c.shifted.reverse ∧ c.stack.length = 1 := by
+    tr.Valid g au.sym ∧ tr.yield = c.shifted.reverse ∧ c.stack.length = 1 := by
   unfold cstepWith at hstep
   split at hstep
   · simp at hstep
@@ -238,13 +242,20 @@ theorem cstep_accept_sound (g : Grammar) (t : Table) (start aug sym : Nat) (hs :
       · simp at hstep
       · rename_i s1 tr1 below hstack
         injection hstep with htr; subst htr
-        obtain ⟨pr, hpr, hrhs, hitem⟩ := hs.accept_item _ _ hmem
-        obtain ⟨_, h0, pr', hpr', hvl, _⟩ := path_lemma g t start aug sym hs 1 c.stack aug hinv.path hitem
-        have : pr' = pr := by rw [hpr] at hpr'; exact (Option.some.inj hpr').symm
-        subst this
+        obtain ⟨au', hin', pr, hpr, hrhs, hitem⟩ := hs.accept_item _ _ hmem
+        -- the path lemma only needs the items, not which automaton we are in, beyond the start state
+        have hpl : 1 ≤ c.stack.length → t.hasItem (topOf start (c.stack.drop 1)) au'.aug 0 ∧
+            ValidList g ((c.stack.take 1).reverse.map (·.2)) (pr.rhs.take 1) := by
+          intro _
+          obtain ⟨_, h0, pr', hpr', hvl, _⟩ :=
+            path_lemma g t autos hs au hin start hstart 1 c.stack au'.aug hinv.path hitem
+          have : pr' = pr := by rw [hpr] at hpr'; exact (Option.some.inj hpr').symm
+          subst this
+          exact ⟨h0, hvl⟩
+        obtain ⟨h0, hvl⟩ := hpl (by rw [hstack]; simp)
         rw [hstack] at h0 hvl
         simp only [List.drop_succ_cons, List.drop_zero] at h0
-        have hstart := hs.aug_start_only _ h0
+        have hstart' := hs.aug_start_only au' hin' _ h0
         have hbelow : below = [] := by
           cases below with
           | nil => rfl
@@ -254,10 +265,13 @@ theorem cstep_accept_sound (g : Grammar) (t : Table) (start aug sym : Nat) (hs :
             have hp := hinv.path
             rw [hstack] at hp
             obtain ⟨_, ⟨⟨X, _, htr⟩, _⟩⟩ := hp
-            simp only [topOf] at hstart
-            subst hstart
-            exact hs.no_into_start _ _ htr
+            simp only [topOf] at hstart'
+            rw [hstart'] at htr
+            exact hs.no_into_start au' hin' _ _ htr
         subst hbelow
+        simp only [topOf] at hstart'
+        have hau : au' = au := hs.distinct au' hin' au hin (by rw [← hstart', hstart])
+        subst hau
         rw [hrhs] at hvl
         simp only [List.take_succ_cons, List.take_zero, List.reverse_cons, List.reverse_nil,
           List.nil_append, List.map_cons, List.map_nil, ValidList] at hvl
